@@ -179,8 +179,16 @@ class FileResolver:
                 glob_part = str(Path(*parts[i:]))
                 break
 
+        tool_ignore = self._get_tool_ignore(root)
         for path in root.glob(glob_part):
             if path.is_file() and self._include_spec.match_file(path.name):
+                # Glob results are filtered like traversal results: not inside an excluded
+                # directory, not matched by the tool ignore file.
+                rel = path.relative_to(root)
+                if any(self._exclude_spec.match_file(part + "/") for part in rel.parts[:-1]):
+                    continue
+                if tool_ignore and tool_ignore.match_file(rel.as_posix()):
+                    continue
                 if not self._exceeds_max_size(path):
                     yield path
 
